@@ -348,6 +348,11 @@ def jobs(unit, tier, only=None):
                                p + 'convert_contract', make_build(unit, W, grouped, 'convert', n, 0),
                                backend=arith if (W >= 32 and n >= 5) else 'sat',
                                timeout=600 if big else 300, instance={'width': W, 'result_len': n, 'grouped': grouped}))
+                if tier == 'thorough' and W >= 32 and n >= 5:
+                    # second solver on the arithmetic obligations: both must discharge them
+                    out.append(Job('c13_%s_convert_n%d_cvc5' % (tag, n), 'convert(w%d%s)' % (W, ',grouped' if grouped else ''),
+                                   p + 'convert_contract', make_build(unit, W, grouped, 'convert', n, 0), backend='cvc5',
+                                   timeout=1800, instance={'width': W, 'result_len': n, 'grouped': grouped, 'cross_check': 'cvc5'}))
                 out.append(Job('c13_%s_utos_n%d' % (tag, n), 'uintNNtoString(char*,v)', p + 'utos_contract',
                                make_build(unit, W, grouped, 'utos', n, 0), backend='sat',
                                timeout=600 if big else 300, instance={'width': W, 'digits': n, 'grouped': grouped}))
